@@ -103,7 +103,7 @@ EXC_PARENT = {
     'LookupError': 'Exception', 'KeyError': 'LookupError', 'IndexError': 'LookupError',
     'StopIteration': 'Exception', 'RuntimeError': 'Exception', 'NotImplementedError': 'RuntimeError',
     'AttributeError': 'Exception', 'ImportError': 'Exception', 'ZeroDivisionError': 'Exception',
-    'zlib.error': 'Exception',
+    'zlib.error': 'Exception', 'NameError': 'Exception', 'UnboundLocalError': 'NameError',
     # sqlalchemy
     'IntegrityError': 'Exception', 'OperationalError': 'Exception',
     # repo (disk_objectstore.exceptions)
